@@ -79,23 +79,33 @@ def with_ignore(G, ign_stmts, after, start_kind):
                 out.append(('class', 'start', None, [('let', 'v', s[3]), ('field', 'w', ('py', 'v'))]))
             elif start_kind == 'class-pass':
                 out.append(('class', 'start', None, [('pass', ('opt', ('str', 'a'))), ('field', 'v', s[3])]))
+            elif start_kind == 'first':
+                # no rule called start: the grammar starts with its first rule
+                out.insert(0, ('rule', 'Main', None, s[3]))
+            elif start_kind == 'first-class':
+                out.insert(0, ('class', 'Main', None, [('field', 'v', s[3])]))
             else:
                 out.append(s)
         else:
             out.append(s)
     if start_kind == 'Start':
         out = [rename_start(s) for s in out]
+    elif start_kind in ('first', 'first-class'):
+        out = [rename_start(s, 'Main') for s in out]
     stmts = (out + ign_stmts) if after else (ign_stmts + out)
     return dict(name=None, extends=None, stmts=stmts)
 
 
-def rename_start(s):
+def rename_start(s, to='Start'):
     def fix(e):
         if e[0] == 'ref' and e[1] == 'start':
-            return ('ref', 'Start')
+            return ('ref', to)
         return gen.map_children(e, fix)
     if s[0] == 'rule':
         return ('rule', s[1], s[2], fix(s[3]))
+    if s[0] == 'class':
+        return ('class', s[1], s[2], [(m[0], m[1], fix(m[2])) if m[0] in ('field', 'let') else ((m[0], fix(m[1])) if m[0] == 'pass' else m)
+                                      for m in s[3]])
     return s
 
 
@@ -227,7 +237,7 @@ def run_shard(rec):
     rec.deadline = time.time() + (300 if quick else 900)
     rng = rec.rng
     idx = 0
-    start_kinds = ['start', 'Start', 'class', 'class-let', 'class-pass']
+    start_kinds = ['start', 'Start', 'class', 'class-let', 'class-pass', 'first', 'first-class']
     for bytes_mode in (False, True):
         leaves = gen.bytes_leaves() if bytes_mode else gen.text_leaves()
         lrules = gen.BYTES_LEAF_RULES if bytes_mode else gen.TEXT_LEAF_RULES
